@@ -810,6 +810,11 @@ class BaseBackend(CodeGen):
         from scipy.integrate import solve_ivp
         kwargs['t_eval'] = times
 
+        # `func` may return the same in-place buffer on every call, while the scipy solvers keep references to
+        # earlier evaluations (first-same-as-last stages): hand them a copy
+        def rhs(t, y_, *args_):
+            return np.array(func(t, y_, *args_))
+
         # call scipy solver
-        results = solve_ivp(fun=func, t_span=(t0, T), y0=y, first_step=dt, args=args, **kwargs)
+        results = solve_ivp(fun=rhs, t_span=(t0, T), y0=y, first_step=dt, args=args, **kwargs)
         return results['y'].T
